@@ -159,7 +159,7 @@ class PokerProp(Prop):
         cw = self.correspondence(case, evs)
         ow = self.oracle(case, evs)
         key, tags = self.key_tags(case, evs)
-        return Verdict(not cw, not ow, "; ".join([w[:500] for w in (ow[:6] + cw[:3])]), key, tags)
+        return Verdict(not cw, not ow, " ;; ".join([w[:500] for w in (ow[:6] + cw[:3])]), key, tags)
 
     def shrink_candidates(self, case):
         ops = case["ops"]
@@ -501,7 +501,7 @@ class C07(PokerProp):
             key = None
         if io.get("boards_seen") and len(io["boards_seen"]) > 1:
             tags = list(tags) + [f"runouts={len(io['boards_seen'])}"]
-        return Verdict(not cw, not ow, "; ".join([w[:600] for w in ow[:4] + cw[:2]]), key, tags)
+        return Verdict(not cw, not ow, " ;; ".join([w[:600] for w in ow[:4] + cw[:2]]), key, tags)
 
 
 # ------------------------------------------------------------------------------------------------ C15
@@ -703,7 +703,7 @@ class C15(PokerProp):
                             why_c.append(f"resume continuation step {i}: " + "; ".join(d[:3])); break
             if len(S["log"]) >= 2:
                 key = core.stable_hash([case["game"], case["stacks"], case["ante"], case["blinds"], S["log"], case["resets"]])
-        return Verdict(not why_c, not why_o, "; ".join([w[:500] for w in why_o[:4] + why_c[:3]]), key, tags)
+        return Verdict(not why_c, not why_o, " ;; ".join([w[:500] for w in why_o[:4] + why_c[:3]]), key, tags)
 
     def shrink_candidates(self, case):
         return iter(())
